@@ -44,11 +44,39 @@ def run(ctx):
     r11_representation_tables(ctx)
     # re-keyed rewards / feedbacks and the logged action are found through `<actions>.index(<action>)`, i.e. through the equality of the row views Densify / Repr produce
     c13.r18_equality_by_contents(ctx, rule="C10.R12")
+    r13_conversions_keep_actions_apart(ctx)
     # re-encoding must not rewrite the old interaction (Repr compares new['actions'] with old['actions'] to decide whether to rebuild the rewards)
     from . import c04
     c04.r3_copy_before_mutate(ctx, rule="C10.R8", only={"EncodeCatRows"})
     ctx.rules["C10.R8"] = ("EncodeCatRows (used by Repr/Finalize to re-encode actions) rewrites only objects created in the call: nested rows are copied before they are "
                            "rewritten, so the old interaction still holds the old actions when Repr decides whether the rewards must be rebuilt")
+
+
+def r13_conversions_keep_actions_apart(ctx, rule="C10.R13"):
+    """Sparsify / Densify rebuild reward and feedback functions as DiscreteReward(<new actions>, <old values>): that is only right while the conversion keeps distinct
+    actions distinct.  (a) a sparse form leaves out the NUMBER 0 only -- None, '' and () are values; (b) the hashing trick uses every position: crc32 % n_feats."""
+    ctx.rule(rule, "representation changes keep distinct actions distinct as far as the representation allows: Sparsify._make_sparse filters its comprehensions with `value != 0` "
+                   "(never by truthiness), Densify._make_dense hashes with `crc32(..) % self._n_feats` (the modulus, not a bit mask)")
+    ms = ctx.fn(EF, "Sparsify._make_sparse")
+    n = 0
+    for comp in [c for c in ast.walk(ms) if isinstance(c, (ast.DictComp, ast.ListComp, ast.SetComp, ast.GeneratorExp))]:
+        for g in comp.generators:
+            for t in g.ifs:
+                conj = t.values if isinstance(t, ast.BoolOp) and isinstance(t.op, ast.And) else [t]
+                for c_ in conj:
+                    if isinstance(c_, ast.Compare) and any(isinstance(o, (ast.Lt, ast.LtE, ast.Gt, ast.GtE)) for o in c_.ops):
+                        continue   # a bound check on a position
+                    n += 1
+                    ok = isinstance(c_, ast.Compare) and len(c_.ops) == 1 and isinstance(c_.ops[0], ast.NotEq) and "0" in (unparse(c_.left), unparse(c_.comparators[0]))
+                    ctx.ob(rule, EF, "Sparsify._make_sparse", comp, "a value is left out of the sparse form only if it equals the number 0", ok, detail={"filter": unparse(c_)})
+    ctx.floor(rule, "value filters in Sparsify._make_sparse", n, 2)
+    md = ctx.fn(EF, "Densify._make_dense")
+    hs = [c for c in ast.walk(md) if isinstance(c, ast.Call) and call_name(c) in ("crc32", "zlib.crc32", "binascii.crc32")]
+    ctx.floor(rule, "hash calls in Densify._make_dense", len(hs), 1)
+    for c in hs:
+        p_ = parent(c)
+        ok = isinstance(p_, ast.BinOp) and isinstance(p_.op, ast.Mod) and p_.left is c and unparse(p_.right) == "self._n_feats"
+        ctx.ob(rule, EF, "Densify._make_dense", p_ if isinstance(p_, ast.BinOp) else c, "a hashed feature lands at crc32 % n_feats (every position reachable for every n_feats)", ok, detail={"position": unparse(p_)[:80]})
 
 
 def r9_batch_by_key(ctx, rule="C10.R9"):
@@ -512,6 +540,8 @@ def r4_finalize(ctx):
 
 
 CONTROLS = [
+    ("Sparsify drops every falsy value", EF, M.replace_expr("Sparsify._make_sparse", "v != 0", "v"), "C10.R13"),
+    ("Densify masks the hash", EF, M.replace_expr("Densify._make_dense", "crc32(k.encode('ascii')) % self._n_feats", "crc32(k.encode('ascii')) & self._n_feats - 1"), "C10.R13"),
     ("views of one class over the same row compare equal unwalked", "coba/primitives.py", M.insert_before("Dense_.__eq__", lambda st: isinstance(st, ast.Try), "if o.__class__ is self.__class__ and o._row is self._row: return True"), "C10.R12"),
     ("Sparsify leaves reward functions on the old actions", EF, M.delete_stmt("Sparsify.filter", lambda st: isinstance(st, ast.For) and ast.unparse(st.target) == "target"), "C10.R1"),
     ("Noise leaves the logged action un-noised", EF, M.delete_stmt("Noise.filter", M.text_has("new['action'] = noisy_actions")), "C10.R2"),
